@@ -95,6 +95,51 @@ def e2e_case(rng, dll, ndtc, cycle_us, ncycles, stop_after):
     return None
 
 
+def overlap_case(rng, dll, ndtc, cycle_us, run_us):
+    """the cycle is shorter than the transport of one DM1: a cycle that comes due while the previous DM1 is still on the
+    bus cannot be sent, but the sender goes on — the callback is asked every cycle until stop_send, and every DM1 that
+    is delivered is exactly what one of those calls supplied, in order"""
+    w, net, a, b, ca_a, ca_b = two_stacks(dll, rng.getrandbits(32))
+    j = w.j
+    lamps = {k: rng.randrange(5) for k in KEYS}
+    cycles = []
+
+    def source():
+        dtcs = [dict(zip(('spn', 'fmi', 'oc'), rand_dtc(rng))) for _ in range(ndtc)]
+        cycles.append((dict(lamps), [dict(x) for x in dtcs]))
+        return dict(lamps), dtcs
+    got = []
+    rx = j.Dm1(ca_b)
+    rx.subscribe(lambda sa, lamp, dtcs, ts: got.append((sa, lamp, dtcs)))
+    tx = j.Dm1(ca_a)
+    tx.start_send(source, sim.VT(cycle_us))
+    net.poke(a)
+    net.run(run_us)
+    tx.stop_send(source)
+    net.poke(a)
+    n_at_stop = len(cycles)
+    net.run(3_000_000)
+    if net.errors:
+        return f"exception {net.errors[0]}"
+    want = run_us // cycle_us - 1
+    if n_at_stop < want:
+        return (f"cyclic DM1 sender stopped by itself: callback asked {n_at_stop} times in {run_us // 1000} ms with a {cycle_us // 1000} ms cycle "
+                f"({dll}, {ndtc} codes, cycles overlapping the transport)")
+    if len(cycles) != n_at_stop:
+        return f"DM1 source called {len(cycles) - n_at_stop} more times after stop_send ({dll}, overlapping cycles)"
+    exp = [(0x21, l, [dict(spn=x['spn'], fmi=x['fmi'], oc=x['oc']) for x in d]) for l, d in cycles]
+    k = 0
+    for g in got:
+        while k < len(exp) and exp[k] != g:
+            k += 1
+        if k == len(exp):
+            return f"a delivered DM1 ({dll}, {ndtc} codes, overlapping cycles) is not what any cycle supplied, or out of order: {str(g)[:160]}"
+        k += 1
+    if len(got) < 2:
+        return f"only {len(got)} DM1 delivered in {run_us // 1000} ms although the transport was free again ({dll}, {ndtc} codes)"
+    return None
+
+
 def dm22_case(j, spn, fmi, act):
     sent = []
 
@@ -130,6 +175,15 @@ def oracle(ctx, full):
         if r:
             findings.append(dict(signature=dict(family='dm1-e2e', dll=dll), what=r, case=dict(dll=dll, n=n)))
             break
+    if not findings:
+        for dll, n, cycle, run_us in ([('j1939-21', 17, 200_000, 2_500_000), ('j1939-21', 40, 1_000_000, 5_500_000)] +
+                                      ([('j1939-22', 400, 50_000, 1_500_000), ('j1939-21', 100, 500_000, 8_000_000)] if big else [])):
+            evals += 1
+            distinct.add((dll, n, 'overlap'))
+            r = overlap_case(rng, dll, n, cycle, run_us)
+            if r:
+                findings.append(dict(signature=dict(family='dm1-overlap', dll=dll), what=r, case=dict(dll=dll, n=n, cycle=cycle)))
+                break
     j = sim.load(C.REPO)
     vals = [0, 1, 0xFFFF, 0x10000, 0x7FFFF, 0x70000, 0x40000, 0x20000] + [rng.getrandbits(19) for _ in range(300 if not big else 5000)]
     for spn in vals:
